@@ -91,7 +91,9 @@ def run_case(case, ctx):
         labels.add('faint_fluxes')
 
     def representable(*vals):
-        return not single or all(1e-36 < abs(v) < 1e37 for v in vals)
+        # (until fix 1eeda98 the library did its arithmetic in the precision of the file and values outside the single-
+        #  precision range had to be left out; it now works and answers in double precision, so every value is compared)
+        return True
     E = case.get('err_stored') or A
     espell = case['spelling'] if E == A else SPELL[E][0]
     if E != A:
